@@ -65,6 +65,10 @@ pub struct Obs {
     pub fingerprint: Option<u64>,
     /// rolling digest of events (determinism audit)
     pub digest: u64,
+    /// true while `--audit` runs: parts of a check that observe real OS
+    /// threads (whose interleaving the harness does not decide) contribute
+    /// only their verdicts, not their schedule-dependent counters
+    pub audit: bool,
 }
 
 impl Obs {
@@ -426,7 +430,7 @@ fn audit<C: Check>(check: &C, n: u64) -> i32 {
                     }
                     let mut g = Xo::derive(seed, check.id(), 0, i);
                     let sc = check.generate(&mut g, tier, i);
-                    let mut obs = Obs::default();
+                    let mut obs = Obs { audit: true, ..Obs::default() };
                     let vs = check.execute(&sc, &mut obs);
                     let mut d = fnv1a(serde_json::to_string(&sc).unwrap_or_default().as_bytes());
                     d = mix(d, obs.digest);
